@@ -107,7 +107,7 @@ TABLE = {
     "ti.image.path":     (_relpath, ["/abs/images/boot.iso"]),
     "ti.stage2.path":    (_relpath, ["/abs/LiveOS/squashfs.img"]),
     "ti.checksum.path":  (_relpath, ["/abs/images/boot.iso"]),
-    "ti.media.number":   (lambda v: v is None or _is_int(v), ["1", 1.5]),
+    "ti.media.number":   (lambda v: v is None or _is_int(v), ["1", 1.5, "", 0.0, []]),
     # discinfo
     "di.timestamp":      (lambda v: isinstance(v, float) and v != 0, [None, "1417653453.0", 1417653453, 0.0]),
     "di.description":    (lambda v: _is_str(v) and v != "", ["", None, 5]),
